@@ -49,6 +49,7 @@ type globAnalysis struct {
 	sum        map[*ssa.Function]*fnSummary
 	fieldTaint map[fieldKey]bool
 	mutable    map[*ssa.Global]string // reason
+	poolOK     map[*ssa.Global]bool
 	val        map[ssa.Value]label
 	sinks      []Ob
 }
@@ -266,12 +267,116 @@ func (g *globAnalysis) findMutableGlobals() {
 				if len(callees) == 0 && com.StaticCallee() != nil {
 					f := com.StaticCallee()
 					if f.Signature.Recv() != nil && len(args) > 0 && externalMutator(f) {
+						if gl, isG := args[0].(*ssa.Global); isG && g.disciplinedPool(gl) {
+							return
+						}
 						mark(args[0], "receiver of "+f.String())
 					}
 				}
 			}
 		})
 	}
+}
+
+// disciplinedPool: gl is a package-level sync.Pool and whatever module code takes out of it is emptied before
+// anything else is done with it (`b := pool.Get().(*bytes.Buffer); b.Reset()`): the pool then only recycles memory,
+// it carries no content from one call to the next.  A pool used without that reset stays mutable shared state.
+func (g *globAnalysis) disciplinedPool(gl *ssa.Global) bool {
+	if g.poolOK == nil {
+		g.poolOK = map[*ssa.Global]bool{}
+	}
+	if v, ok := g.poolOK[gl]; ok {
+		return v
+	}
+	g.poolOK[gl] = false
+	pt, ok := gl.Type().(*types.Pointer)
+	if !ok {
+		return false
+	}
+	if n, ok := types.Unalias(pt.Elem()).(*types.Named); !ok || n.Obj().Pkg() == nil || n.Obj().Pkg().Path() != "sync" || n.Obj().Name() != "Pool" {
+		return false
+	}
+	nGet := 0
+	good := true
+	for _, fn := range g.fns {
+		allInstrs(fn, func(in ssa.Instruction) {
+			c, ok := in.(*ssa.Call)
+			if !ok || calleeFullName(c.Common()) != "(*sync.Pool).Get" || len(c.Common().Args) == 0 || c.Common().Args[0] != ssa.Value(gl) {
+				return
+			}
+			nGet++
+			// the typed value
+			var vals []ssa.Value
+			vals = append(vals, c)
+			for _, r := range *c.Referrers() {
+				if ta, ok := r.(*ssa.TypeAssert); ok {
+					vals = append(vals, ta)
+					for _, r2 := range *ta.Referrers() {
+						if ex, ok := r2.(*ssa.Extract); ok && ex.Index == 0 {
+							vals = append(vals, ex)
+						}
+					}
+				}
+			}
+			isVal := func(v ssa.Value) bool {
+				for _, x := range vals {
+					if x == v || sameVar(x, v) {
+						return true
+					}
+				}
+				return false
+			}
+			// the reset call
+			var reset ssa.Instruction
+			allInstrs(fn, func(in2 ssa.Instruction) {
+				c2, ok := in2.(*ssa.Call)
+				if !ok || c2.Common().StaticCallee() == nil || len(c2.Common().Args) == 0 || !isVal(c2.Common().Args[0]) {
+					return
+				}
+				switch c2.Common().StaticCallee().Name() {
+				case "Reset":
+					if reset == nil {
+						reset = c2
+					}
+				case "Truncate":
+					if k, isC := constInt(c2.Common().Args[len(c2.Common().Args)-1]); isC && k == 0 && reset == nil {
+						reset = c2
+					}
+				}
+			})
+			if reset == nil {
+				good = false
+				return
+			}
+			// every other use of the value comes after the reset
+			for _, v := range vals {
+				if v.Referrers() == nil {
+					continue
+				}
+				for _, r := range *v.Referrers() {
+					if r == reset {
+						continue
+					}
+					switch r.(type) {
+					case *ssa.TypeAssert, *ssa.Extract, *ssa.DebugRef:
+						continue
+					case *ssa.Store:
+						// kept in a local variable: its loads are covered through sameVar above
+						continue
+					}
+					if r.Block() == reset.Block() {
+						if instrIndex(r) < instrIndex(reset) {
+							good = false
+						}
+					} else if !reset.Block().Dominates(r.Block()) {
+						good = false
+					}
+				}
+			}
+		})
+	}
+	g.poolOK[gl] = good && nGet > 0
+	return g.poolOK[gl]
 }
 
 // externalMutator: an external method that may change its receiver's state.
@@ -1055,6 +1160,15 @@ func ruleGLOB3(w *World) []Ob {
 			l.add(o)
 		}
 	}
+	// only the default build lets a caller keep a tree and use it again (NewRoot/Add + the FromRoot operations);
+	// the tinywasm variant builds a fresh tree inside its single Output call, so a write there is not observable
+	for _, o := range structureObligations(w, w.D()) {
+		l.add(o)
+	}
+	// node.go is shared by both variants; the default configuration covers it
+	for _, o := range setterObligations(w, w.D()) {
+		l.add(o)
+	}
 	return l.list
 }
 
@@ -1172,6 +1286,11 @@ func memoObligations(w *World, p *Prog) []Ob {
 				slice(e, seen, acc, d+1)
 			}
 		case *ssa.Call:
+			// an error verdict about the node as it has just been assembled (validatePath and the like) is not a
+			// remembered result: testing it against nil decides nothing about reuse
+			if isErrorType(x.Type()) {
+				return
+			}
 			if g := x.Common().StaticCallee(); g != nil && p.InModule(g) && recvTypeName(g) == "Node" {
 				for k := range reads(g, 0) {
 					acc[k] = true
@@ -1313,5 +1432,178 @@ func sharedTypeNames(t types.Type) []string {
 		}
 	}
 	walk(t, 0)
+	return out
+}
+
+// structureObligations: the shape of a tree (names, levels, parent links, child lists and their order) is written only
+// while the tree is built — by newNode / addChild / setParent and the literal that creates a node.  Every operation
+// that consumes a tree (walk, output, mkdir, verify) leaves it as it found it, so that using a tree does not change
+// what the next use sees.  Handing a node's child list to an in-place library mutator counts as a write.
+func structureObligations(w *World, p *Prog) []Ob {
+	var out []Ob
+	structural := map[string]bool{"name": true, "hierarchy": true, "parent": true, "children": true}
+	builders := map[string]bool{"newNode": true, "addChild": true, "setParent": true}
+	isChildrenLoad := func(v ssa.Value) bool {
+		if ld, ok := isLoad(stripConv(v)); ok {
+			if fa, ok := ld.(*ssa.FieldAddr); ok {
+				if tn, f, _ := fieldOf(fa); tn == "Node" && f == "children" {
+					return true
+				}
+			}
+		}
+		return false
+	}
+	inPlace := map[string]bool{"slices.Reverse": true, "slices.Sort": true, "slices.SortFunc": true, "slices.SortStableFunc": true, "sort.Slice": true, "sort.SliceStable": true, "sort.Sort": true, "sort.Stable": true, "math/rand.Shuffle": true}
+	n := 0
+	for _, fn := range libFuncs(p) {
+		if p.Cfg.Name == "W" && !wOnlyFunc(w, fn) {
+			continue
+		}
+		if recvTypeName(fn) == "Node" && builders[fname(outermost(fn))] || builders[fname(outermost(fn))] {
+			continue
+		}
+		fn := fn
+		var bad []string
+		allInstrs(fn, func(in ssa.Instruction) {
+			switch x := in.(type) {
+			case *ssa.Store:
+				switch a := x.Addr.(type) {
+				case *ssa.FieldAddr:
+					tn, f, _ := fieldOf(a)
+					if tn != "Node" || !structural[f] {
+						return
+					}
+					if _, fresh := a.X.(*ssa.Alloc); fresh {
+						return // the literal that creates the node
+					}
+					bad = append(bad, "writes Node."+f+" at "+p.InstrPos(x))
+				case *ssa.IndexAddr:
+					if isChildrenLoad(a.X) {
+						bad = append(bad, "overwrites an element of a child list at "+p.InstrPos(x))
+					}
+				}
+			case *ssa.Call:
+				callee := x.Common().StaticCallee()
+				if callee == nil {
+					return
+				}
+				name := callee.String()
+				if o := callee.Origin(); o != nil {
+					name = o.String()
+				}
+				if !inPlace[name] {
+					return
+				}
+				for _, a := range x.Common().Args {
+					v := a
+					if mi, ok := v.(*ssa.MakeInterface); ok {
+						v = mi.X
+					}
+					if isChildrenLoad(v) {
+						bad = append(bad, "reorders a child list in place with "+name+" at "+p.InstrPos(x))
+					}
+					// a parameter that call sites fill with a child list
+					if prm, ok := resolve(v).(*ssa.Parameter); ok && prm.Parent() == fn {
+						i := paramIndex(fn, prm)
+						for _, ci := range p.Callers(fn) {
+							args := callArgs(ci.Common())
+							if i < len(args) && isChildrenLoad(args[i]) {
+								bad = append(bad, "reorders in place (with "+name+" at "+p.InstrPos(x)+") the child list it is handed at "+p.InstrPos(ci.(ssa.Instruction)))
+							}
+						}
+					}
+				}
+			}
+		})
+		if len(bad) > 0 {
+			n++
+			sort.Strings(bad)
+			out = append(out, Ob{Rule: "GLOB-3", Cfg: p.Cfg.Name, Func: p.FuncID(fn), Construct: "the tree's shape is written only while it is built", Pos: p.Pos(fn.Pos()), Status: Violation, Nontrivial: true, Role: "structure",
+				Detail: strings.Join(dedup(bad), "; ") + ": an operation that consumes a tree changes it, so the next operation on the same tree (or the caller's own view of it) sees a different tree"})
+		}
+	}
+	if n == 0 {
+		out = append(out, Ob{Rule: "GLOB-3", Cfg: p.Cfg.Name, Func: "-", Construct: "the tree's shape is written only while it is built", Pos: "-", Status: OK, Nontrivial: true, Role: "structure",
+			Detail: "Node.name / hierarchy / parent / children and the elements of child lists are stored only by newNode, addChild, setParent and node literals; no child list is handed to an in-place sort / reverse"})
+	}
+	return out
+}
+
+// setterObligations: a Node method that writes the node's cached branch or path writes it on every route to its
+// return.  The growers assemble the cache by calling these setters in a fixed order (clear, then extend); a setter
+// that can return without storing leaves what an earlier stage — or an earlier operation — put there.
+func setterObligations(w *World, p *Prog) []Ob {
+	var out []Ob
+	n := 0
+	for _, fn := range libFuncs(p) {
+		if recvTypeName(fn) != "Node" || fn.Parent() != nil || len(fn.Blocks) == 0 {
+			continue
+		}
+		storeBlocks := map[string]map[*ssa.BasicBlock]bool{}
+		allInstrs(fn, func(in ssa.Instruction) {
+			st, ok := in.(*ssa.Store)
+			if !ok {
+				return
+			}
+			fa, ok := st.Addr.(*ssa.FieldAddr)
+			if !ok || !sameVar(baseObject(fa), fn.Params[0]) {
+				return
+			}
+			tn, f, _ := fieldOf(fa)
+			var keys []string
+			switch {
+			case tn == "branch" && (f == "value" || f == "path"):
+				keys = []string{f}
+			case tn == "Node" && f == "brnch":
+				keys = []string{"value", "path"}
+			}
+			for _, k := range keys {
+				if storeBlocks[k] == nil {
+					storeBlocks[k] = map[*ssa.BasicBlock]bool{}
+				}
+				storeBlocks[k][in.Block()] = true
+			}
+		})
+		var keys []string
+		for k := range storeBlocks {
+			keys = append(keys, k)
+		}
+		sort.Strings(keys)
+		for _, k := range keys {
+			n++
+			// is a return reachable from the entry without passing a block that stores the field?
+			seen := map[*ssa.BasicBlock]bool{}
+			var escape *ssa.BasicBlock
+			var walk func(b *ssa.BasicBlock)
+			walk = func(b *ssa.BasicBlock) {
+				if seen[b] || storeBlocks[k][b] || escape != nil {
+					return
+				}
+				seen[b] = true
+				if len(b.Instrs) > 0 {
+					if _, isRet := b.Instrs[len(b.Instrs)-1].(*ssa.Return); isRet {
+						escape = b
+						return
+					}
+				}
+				for _, s := range b.Succs {
+					walk(s)
+				}
+			}
+			walk(fn.Blocks[0])
+			ob := Ob{Rule: "GLOB-3", Cfg: p.Cfg.Name, Func: p.FuncID(fn), Construct: "a setter of the node's cached " + k + " stores on every route", Pos: p.Pos(fn.Pos()), Nontrivial: true, Role: "setter"}
+			if escape != nil {
+				ob.Status = Violation
+				ob.Detail = "the return at " + p.InstrPos(escape.Instrs[len(escape.Instrs)-1]) + " is reached without storing the node's " + k + ": the caller's clear / extend sequence silently keeps whatever was cached before"
+			} else {
+				ob.Status = OK
+				ob.Detail = "every route from entry to a return passes a store to the receiver's " + k
+			}
+			out = append(out, ob)
+		}
+	}
+	if n == 0 {
+		out = append(out, Ob{Rule: "GLOB-3", Cfg: p.Cfg.Name, Func: "-", Construct: "setters of the node's cached branch / path", Pos: "-", Status: Undecided, Nontrivial: true, Role: "setter", Detail: "no Node method stores branch.value / branch.path: the cache no longer has the expected shape"})
+	}
 	return out
 }
